@@ -182,6 +182,7 @@ func TestVerifC19Write(t *testing.T) {
 		// projection: what the wire bytes are (gzip stream or not) and the text they carry
 		kind, text := "plain", wire
 		if len(wire) >= 2 && wire[0] == 0x1f && wire[1] == 0x8b {
+			kind, text = "badgzip", nil // gzip magic, but not (yet shown to be) a complete gzip stream
 			if zr, err := gzip.NewReader(bytes.NewReader(wire)); err == nil {
 				if plain, err := io.ReadAll(zr); err == nil {
 					kind, text = "gzip", plain
